@@ -36,6 +36,9 @@ EStep ==
        ELSE IF Ev.do = "http" /\ Ev.name = "canary-create" /\ Ev.class # "2xx" THEN "the server does not accept a well-formed request any more"
        ELSE IF Ev.do = "received" /\ up /\ ~ \E k \in DOMAIN Ev.json : Ev.json[k].task.id = "__invoke:" \o Ev.name \o "-" \o sc.sid
             THEN "background processing is wedged: a task routed afterwards is never dispatched"
+       ELSE IF Ev.do = "rows" /\ up /\ Ev.json.ok /\ Ev.name \in {"canary-s-1", "canary-s-2"}
+            THEN (IF \E k \in DOMAIN Ev.json.promises : Ev.json.promises[k].sched = Ev.name \o "-" \o sc.sid THEN ""
+                  ELSE "background processing is wedged: a schedule created afterwards never fires")
        ELSE IF Ev.do = "rows" /\ up /\ Ev.json.ok
                /\ ~ \E k \in DOMAIN Ev.json.promises : Ev.json.promises[k].id = Ev.name \o "-" \o sc.sid /\ Ev.json.promises[k].state = 16
             THEN "background processing is wedged: a promise created afterwards is never timed out"
@@ -61,7 +64,8 @@ C13_NeverCrashes == bad \notin Crashes
 \* ... or stalls it
 C13_NeverWedges == bad \notin {"the server does not answer (wedged)", "no reply to the request", "the server does not accept a well-formed request any more",
                                 "background processing is wedged: a task routed afterwards is never dispatched",
-                                "background processing is wedged: a promise created afterwards is never timed out"}
+                                "background processing is wedged: a promise created afterwards is never timed out",
+                                "background processing is wedged: a schedule created afterwards never fires"}
 \* client inputs are never answered with a server error
 C13_NoServerError == bad # "server error for a client input"
 \* invalid requests are answered with a client-error status ...
